@@ -7,14 +7,8 @@ TB = ("Trusted base: Coq 8.16.1 kernel (+ its vm_compute machine for closed witn
       "(Print Assumptions of every property theorem is captured on each run and must be closed or inside the stdlib allowlist named in evidence); "
       "hand-written Gallina model of the anchored Rust code (modelled, not verified) tied by the differential correspondence run on every check "
       "(extraction with ExtrOcamlBasic only, no Extract Constant; OCaml driver; Rust harness built from /repo's working tree with --cfg selen_verif); tools/gen_consts.py constant translator. ")
-CHECKS = {
- "C12": dict(text="Integer half proved in Coq for all domains/bounds/sequences (Properties/C12.v, 9 theorems incl. the bridge to the verified SparseSet model): try_set_min/max leave exactly the values on the right side of the bound, fail iff none is left, report a change iff the domain shrank. Float half over a bit-exact Flocq binary64 model (Properties/C12F.v, 16 theorems): FloatInterval primitives stay inside the interval for ALL finite inputs, next/prev monotone w.r.t. their argument, int bounds on float variables and float bounds on int variables exact, no inverted interval, and under the decidable magnitude hypothesis Magn (2^-60 <= step <= 2^60, |values| <= 2^50*step) no widening, event iff changed, loss bounded by step*(1+2^-50)+|v|*2^-50, for every sequence; outside Magn the statements are refuted by closed witnesses. Tie: hook H1 differentials, bit-for-bit on f64 (40k cases quick / 1.2M thorough), judged with exact rational arithmetic.",
-             note=TB + "Float theorems depend on the standard-library axioms Flocq needs (ClassicalDedekindReals.sig_forall_dec, sig_not_dec, FunctionalExtensionality.functional_extensionality_dep, Classical_Prop.classic), as printed by Print Assumptions and coqchk. PARTIAL for floats: monotonicity of next/prev in x (x<=y => next x <= next y) is not proved; the loss bound holds under Magn only. Known classes: outside_magn, int_bound_tol_invert, next_neg_zero.",
-             tech="Coq proofs over abstract integer domains + bit-exact Flocq binary64 model of FloatInterval/try_set_min/max; H1 differential compared bit-for-bit", ref="6/C12"),
- "C11": dict(text="Refinement theorem (Coq, all histories, all universes): every SparseSet operation sequence incl. stack-disciplined save/restore agrees with a plain mathematical set on every observation; tied to sparse_set.rs by an exhaustive small-scope + seeded random differential of the extracted model against the real SparseSet.",
-             note=TB + "Known class D7 (restore after an element-adding union_with) is excluded by hypothesis and refuted by witness; i32/u32 are unbounded Z/nat in the model.",
-             tech="Coq refinement proof (sparse set -> mathematical set, induction over op lists) + extracted-model/implementation differential", ref="6/C11"),
-}
+# the per-property texts live in tools/manifest_checks.json (id -> {text, note, tech, ref}); edit that file
+CHECKS = json.load(open(os.path.join(ROOT, "tools", "manifest_checks.json")))
 NA_REASON = "no check is registered for this property yet (the Coq model does not cover its code in the committed state); see DESIGN.md section 6 for the planned theorems"
 def main():
     props = [json.loads(l)["id"] for l in open(os.path.join(ROOT, "properties.jsonl"))]
